@@ -4,7 +4,7 @@
 //! fixed signature file (46 `#host fn`s of arity 0–4 over every type constructor nested to depth 3,
 //! three `#host` structs with void fields, two `#host` enums) and links the generated
 //! `HostFunctionArgs::from_vm`, `HostFunctionRet::into_vm` and struct/enum `VmType` impls.  This binary
-//! generates, per case, random argument values and a random result value, writes the Abra program that
+//! (now 54 signatures, incl. several-array and array-in-tuple shapes) generates, per case, random argument values and a random result value, writes the Abra program that
 //! passes the arguments as literals and prints what the host function returned, and lets the child
 //! process run it on the real compiler + VM, reading the arguments and writing the result with the
 //! generated code.  Compared with the Lean model `Abra.Marshal`: the arguments the host saw (in
@@ -29,7 +29,7 @@ fn payload_ty(fs: &[Ty]) -> Ty {
 const WORDS: &[&str] = &["", "a", "b", "ab", "hello world", "x y z", "Zed", "0", "été", "日本", "naïve café", "tab_less", "UPPER lower"];
 
 /// `lit`: the value must be writable as an Abra literal (finite floats with a short decimal form)
-fn gen_v(t: &Ty, rng: &mut Rng, depth: u32, lit: bool) -> V {
+fn gen_v(t: &Ty, rng: &mut Rng, depth: u32, lit: bool, edge: bool) -> V {
     match t {
         Ty::Int => V::Int(match rng.below(6) {
             0 => 0,
@@ -55,31 +55,37 @@ fn gen_v(t: &Ty, rng: &mut Rng, depth: u32, lit: bool) -> V {
             }
         }
         Ty::Bool => V::Bool(rng.chance(1, 2)),
-        Ty::Str => V::Str(rng.pick(WORDS).to_string()),
+        Ty::Str => V::Str(if edge && rng.chance(1, 2) { String::new() } else { rng.pick(WORDS).to_string() }),
         Ty::Unit => V::Unit,
         Ty::Opt(x) => {
-            if rng.chance(2, 3) { V::Some(Box::new(gen_v(x, rng, depth + 1, lit))) } else { V::None }
+            if rng.chance(if edge { 1 } else { 2 }, if edge { 2 } else { 3 }) { V::Some(Box::new(gen_v(x, rng, depth + 1, lit, edge))) } else { V::None }
         }
         Ty::Res(x, e) => {
-            if rng.chance(1, 2) { V::Ok(Box::new(gen_v(x, rng, depth + 1, lit))) } else { V::Err(Box::new(gen_v(e, rng, depth + 1, lit))) }
+            if rng.chance(1, 2) { V::Ok(Box::new(gen_v(x, rng, depth + 1, lit, edge))) } else { V::Err(Box::new(gen_v(e, rng, depth + 1, lit, edge))) }
         }
         Ty::Arr(x) => {
-            let n = match rng.below(5) {
-                0 => 0,
-                1 => 1,
-                _ => rng.below(if depth == 0 { 7 } else { 4 }) as usize,
+            // "edge" cases: half of all arrays are empty, so that empty containers sit next to non-empty
+            // siblings (several arguments, elements of arrays/tuples/structs) in every position
+            let n = if edge && rng.chance(1, 2) {
+                0
+            } else {
+                match rng.below(5) {
+                    0 => 0,
+                    1 => 1,
+                    _ => 1 + rng.below(if depth == 0 { 6 } else { 3 }) as usize,
+                }
             };
-            V::Arr((0..n).map(|_| gen_v(x, rng, depth + 1, lit)).collect())
+            V::Arr((0..n).map(|_| gen_v(x, rng, depth + 1, lit, edge)).collect())
         }
-        Ty::Tup(xs) => V::Tup(xs.iter().map(|x| gen_v(x, rng, depth + 1, lit)).collect()),
+        Ty::Tup(xs) => V::Tup(xs.iter().map(|x| gen_v(x, rng, depth + 1, lit, edge)).collect()),
         Ty::Named(name) => {
             if let Some(d) = struct_def(name) {
-                V::Tup(d.fields.iter().map(|(_, ft)| gen_v(ft, rng, depth + 1, lit)).collect())
+                V::Tup(d.fields.iter().map(|(_, ft)| gen_v(ft, rng, depth + 1, lit, edge)).collect())
             } else {
                 let d = enum_def(name).unwrap();
                 let tag = rng.below(d.variants.len() as u64) as usize;
                 let fs = &d.variants[tag].1;
-                if fs.is_empty() { V::Variant(tag, None) } else { V::Variant(tag, Some(Box::new(gen_v(&payload_ty(fs), rng, depth + 1, lit)))) }
+                if fs.is_empty() { V::Variant(tag, None) } else { V::Variant(tag, Some(Box::new(gen_v(&payload_ty(fs), rng, depth + 1, lit, edge)))) }
             }
         }
     }
@@ -240,6 +246,60 @@ fn shape(v: &V, ctx: &mut Ctx) {
     }
 }
 
+/// does a composite hold an empty array/string/none/unit next to a non-empty sibling that is converted after it?
+fn is_empty_leaf(v: &V) -> bool {
+    matches!(v, V::None | V::Unit) || matches!(v, V::Arr(xs) if xs.is_empty()) || matches!(v, V::Str(s) if s.is_empty())
+}
+fn empty_beside_sibling(vs: &[V]) -> bool {
+    vs.len() >= 2 && vs.iter().any(is_empty_leaf) && vs.iter().any(|v| !is_empty_leaf(v))
+}
+fn count_siblings(v: &V, ctx: &mut Ctx) {
+    match v {
+        V::Arr(xs) | V::Tup(xs) => {
+            if empty_beside_sibling(xs) {
+                ctx.count("empty-value-beside-nonempty-sibling:inside-composite");
+            }
+            if xs.iter().any(|x| matches!(x, V::Arr(e) if e.is_empty())) && xs.len() >= 2 {
+                ctx.count("empty-array-inside-composite");
+            }
+            xs.iter().for_each(|x| count_siblings(x, ctx))
+        }
+        V::Some(x) | V::Ok(x) | V::Err(x) => count_siblings(x, ctx),
+        V::Variant(_, Some(x)) => count_siblings(x, ctx),
+        _ => {}
+    }
+}
+
+/// The c36gen crate lives next to this crate's sources.  When the check runs against a scratch copy of the
+/// repository (VERIF_REPO, used to try seeded changes), a copy of the crate whose path dependencies point at
+/// that copy is written next to the alternate harness crate.
+fn child_crate_dir() -> Result<std::path::PathBuf, String> {
+    let manifest = std::path::Path::new(env!("CARGO_MANIFEST_DIR"));
+    if let Ok(d) = std::env::var("VERIF_C36GEN_DIR") {
+        return Ok(d.into());
+    }
+    let src = std::fs::canonicalize(manifest.join("src")).map_err(|e| e.to_string())?;
+    let real = src.parent().ok_or("no parent")?.join("c36gen");
+    let repo = std::env::var("VERIF_REPO").unwrap_or_else(|_| "/repo".into());
+    let repo = repo.trim_end_matches('/').to_string();
+    let dir = if repo == "/repo" {
+        real
+    } else {
+        let alt = manifest.join("c36gen");
+        std::fs::create_dir_all(alt.join("src")).map_err(|e| e.to_string())?;
+        for f in ["Cargo.toml", "build.rs", "sigtable.rs", "src/main.rs"] {
+            let text = std::fs::read_to_string(real.join(f)).map_err(|e| format!("{f}: {e}"))?.replace("/repo/", &format!("{repo}/"));
+            let dst = alt.join(f);
+            if std::fs::read_to_string(&dst).ok().as_deref() != Some(&text) {
+                std::fs::write(&dst, text).map_err(|e| e.to_string())?;
+            }
+        }
+        alt
+    };
+    let _ = std::fs::copy(format!("{repo}/Cargo.lock"), dir.join("Cargo.lock"));
+    Ok(dir)
+}
+
 struct Case {
     k: usize,
     args: Vec<V>,
@@ -254,8 +314,10 @@ fn main() {
     let mut cases: Vec<Case> = vec![];
     for (k, sig) in table.iter().enumerate() {
         for _ in 0..per_sig {
-            let args: Vec<V> = sig.params.iter().map(|t| gen_v(t, &mut ctx.rng, 0, true)).collect();
-            let ret = gen_v(&sig.ret, &mut ctx.rng, 0, false);
+            let edge = ctx.rng.chance(2, 5);
+            let args: Vec<V> = sig.params.iter().map(|t| gen_v(t, &mut ctx.rng, 0, true, edge)).collect();
+            let edge_ret = ctx.rng.chance(2, 5);
+            let ret = gen_v(&sig.ret, &mut ctx.rng, 0, false, edge_ret);
             let mut p = String::from("use sigs\n");
             let mut names = vec![];
             for (j, (t, v)) in sig.params.iter().zip(&args).enumerate() {
@@ -298,17 +360,27 @@ fn main() {
     }
 
     // build and run the child (real generator in its build script)
-    // (VERIF_C36GEN_DIR: a scratch copy of the crate, used only to test that the check detects seeded bugs)
-    let dir = std::env::var("VERIF_C36GEN_DIR")
-        .map(std::path::PathBuf::from)
-        .unwrap_or_else(|_| std::path::Path::new(env!("CARGO_MANIFEST_DIR")).join("c36gen"));
-    let _ = std::fs::copy("/repo/Cargo.lock", dir.join("Cargo.lock"));
+    let dir = match child_crate_dir() {
+        Ok(d) => d,
+        Err(e) => {
+            ctx.spec_fail(format!("cannot prepare the c36gen crate: {e}"));
+            ctx.finish();
+            return;
+        }
+    };
     let b = std::process::Command::new("cargo")
         .args(["build", "--offline", "--quiet"])
         .current_dir(&dir)
         .env_remove("RUSTFLAGS")
-        .output()
-        .expect("cargo");
+        .output();
+    let b = match b {
+        Ok(b) => b,
+        Err(e) => {
+            ctx.spec_fail(format!("cannot run cargo for the c36gen crate: {e}"));
+            ctx.finish();
+            return;
+        }
+    };
     if !b.status.success() {
         let err = String::from_utf8_lossy(&b.stderr);
         let first: Vec<&str> = err.lines().filter(|l| l.starts_with("error")).take(5).collect();
@@ -319,28 +391,68 @@ fn main() {
         ctx.finish();
         return;
     }
-    let mut child = std::process::Command::new(dir.join("target/debug/c36gen"))
-        .stdin(std::process::Stdio::piped())
-        .stdout(std::process::Stdio::piped())
-        .stderr(std::process::Stdio::null())
-        .spawn()
-        .expect("spawn c36gen");
-    let input: String = cases.iter().map(|c| format!("{}\t{}\t{}\n", c.k, v_text(&c.ret), hex(c.program.as_bytes()))).collect();
-    let mut stdin = child.stdin.take().unwrap();
-    let w = std::thread::spawn(move || {
-        let _ = stdin.write_all(input.as_bytes());
-    });
-    let out = child.wait_with_output().unwrap();
-    let _ = w.join();
-    let text = String::from_utf8_lossy(&out.stdout).to_string();
-    let lines: Vec<&str> = text.lines().filter(|l| l.starts_with("R\t")).collect();
-    if lines.len() != cases.len() {
-        ctx.spec_fail(format!("child answered {} of {} cases (status {:?})", lines.len(), cases.len(), out.status));
+    let exe = dir.join("target/debug/c36gen");
+    let case_line = |i: usize| format!("{i}\t{}\t{}\t{}\n", cases[i].k, v_text(&cases[i].ret), hex(cases[i].program.as_bytes()));
+    let mut answers: Vec<Option<String>> = vec![None; cases.len()];
+    let run_child = |idxs: &[usize], threads: usize, answers: &mut Vec<Option<String>>| -> String {
+        let input: String = idxs.iter().map(|&i| case_line(i)).collect();
+        let child = std::process::Command::new(&exe)
+            .env("VERIF_THREADS", threads.to_string())
+            .stdin(std::process::Stdio::piped())
+            .stdout(std::process::Stdio::piped())
+            .stderr(std::process::Stdio::null())
+            .spawn();
+        let mut child = match child {
+            Ok(c) => c,
+            Err(e) => return format!("cannot start: {e}"),
+        };
+        let mut stdin = child.stdin.take().unwrap();
+        let w = std::thread::spawn(move || {
+            let _ = stdin.write_all(input.as_bytes());
+        });
+        let out = child.wait_with_output();
+        let _ = w.join();
+        match out {
+            Ok(out) => {
+                for l in String::from_utf8_lossy(&out.stdout).lines() {
+                    let mut p = l.splitn(3, '\t');
+                    if p.next() == Some("R") {
+                        if let (Some(i), Some(rest)) = (p.next().and_then(|x| x.parse::<usize>().ok()), p.next()) {
+                            if i < answers.len() {
+                                answers[i] = Some(rest.to_string());
+                            }
+                        }
+                    }
+                }
+                format!("{}", out.status)
+            }
+            Err(e) => format!("wait failed: {e}"),
+        }
+    };
+    let all: Vec<usize> = (0..cases.len()).collect();
+    let _ = run_child(&all, vh::n_threads().min(12), &mut answers);
+    // cases without an answer: the child process died (abort, stack overflow, …).  Re-run them one thread,
+    // in order; the first case still unanswered is the one that kills the process.
+    let mut deaths = 0;
+    loop {
+        let missing: Vec<usize> = (0..cases.len()).filter(|&i| answers[i].is_none()).collect();
+        if missing.is_empty() || deaths >= 25 {
+            break;
+        }
+        let status = run_child(&missing, 1, &mut answers);
+        if let Some(&killer) = missing.iter().find(|&&i| answers[i].is_none()) {
+            deaths += 1;
+            answers[killer] = Some(format!("-\t-\t-\tcrash:{}", hex(format!("the process serving this call died ({status})").as_bytes())));
+        }
     }
+    if deaths > 0 {
+        ctx.notes.push(format!("{deaths} cases killed the serving process"));
+    }
+    let lines: Vec<String> = answers.iter().map(|a| a.clone().unwrap_or_else(|| format!("-\t-\t-\tcrash:{}", hex(b"not run")))).collect();
     for (c, l) in cases.iter().zip(&lines) {
         let sig = &table[c.k];
         let f: Vec<&str> = l.split('\t').collect();
-        let (seen_k, seen_args, printed_hex, status) = (f[1], f[2], f[3], f[4]);
+        let (seen_k, seen_args, printed_hex, status) = (f[0], f[1], f[2], f[3]);
         let printed = String::from_utf8_lossy(&unhex(printed_hex)).to_string();
         // request for the model
         let mut fl = vec![];
@@ -374,7 +486,11 @@ fn main() {
         let call = format!("f{:02}({}) -> {}", c.k, sig.params.iter().map(abra_ty).collect::<Vec<_>>().join(", "), abra_ty(&sig.ret));
         if status != "done" {
             let detail = status.split_once(':').map(|(a, b)| format!("{a}: {}", String::from_utf8_lossy(&unhex(b)))).unwrap_or(status.to_string());
-            ctx.spec_fail(format!("{call}: program did not finish ({detail}); program: {}", c.program.replace('\n', " ; ")));
+            ctx.spec_fail(format!(
+                "{call} called with [{want_args}], host answering {}: the call did not complete ({detail}); the host had read [{seen_args}]; program: {}",
+                canon(&c.ret),
+                c.program.replace('\n', " ; ")
+            ));
             ctx.count("outcome:not-done");
             continue;
         }
@@ -404,9 +520,17 @@ fn main() {
         if matches!(sig.ret, Ty::Tup(_)) {
             ctx.count("tuple-result");
         }
+        if empty_beside_sibling(&c.args) {
+            ctx.count("empty-value-beside-nonempty-sibling:among-arguments");
+        }
+        if c.args.len() >= 2 && c.args.iter().any(|v| matches!(v, V::Arr(e) if e.is_empty())) {
+            ctx.count("empty-array-among-several-arguments");
+        }
         for a in &c.args {
             shape(a, &mut ctx);
+            count_siblings(a, &mut ctx);
         }
+        count_siblings(&c.ret, &mut ctx);
         shape(&c.ret, &mut ctx);
     }
     ctx.finish();
